@@ -178,6 +178,11 @@ func partB(rep *lib.Report) {
 			for k := 0; k < maxSessionsPerFn && k < len(egs)*2; k++ {
 				i, j, m := rnd.Intn(len(egs)), rnd.Intn(len(egs)), rnd.Intn(len(egs))
 				s := r.newSession(fmt.Sprintf("B:%s:%s:%d", name, c.Function.Name(), k), u)
+				for x := range u.Nodes {
+					if u.IsSubnode(x) {
+						s.emit(r, fmt.Sprintf("issub %d", x))
+					}
+				}
 				s.defReal(r, "g", reals[i])
 				s.defReal(r, "h", reals[j])
 				s.defReal(r, "k", reals[m])
